@@ -73,7 +73,7 @@ def parse_imgdec(line):
         return None
     parts = line.split(" || ")
     kind = parts[0].split()[1]
-    res = {}
+    res = {"size": int(parts[0].split()[2].split("=")[1])}
     for p in parts[1:]:
         name, c = p.split(" :: ", 1)
         res[name.strip()] = c.strip()
